@@ -57,6 +57,10 @@ type Config struct {
 	// and never end a path at a failing assertion
 	CollectObs       bool
 	AllFailuresKnown bool
+	// OwnPrefixes: assertion-id prefixes this check is responsible for; other
+	// failures are recorded as foreign (they belong to another property's
+	// check) and do not end the path.
+	OwnPrefixes []string
 }
 
 // Stats are the measured facts of one exploration.
@@ -84,6 +88,7 @@ type Stats struct {
 	Wall        time.Duration
 	Exhausted   bool // work list ran empty
 	MaxTrace    int
+	Foreign     int64
 	Obs         []string
 }
 
@@ -224,6 +229,10 @@ func (ex *Explorer) merge(r *runState) {
 		st.Intrinsics[f] += n
 	}
 	for _, f := range r.failures {
+		if f.Known == "foreign" {
+			st.Foreign++
+			continue
+		}
 		if f.Known != "" {
 			st.KnownSeen[f.Known]++
 			if _, ok := st.KnownSample[f.Known]; !ok {
@@ -718,6 +727,17 @@ func (r *runState) newInput(name string, lo, hi int64) value {
 func (r *runState) known(assertID string) string {
 	if r.ex.cfg.AllFailuresKnown {
 		return "xval"
+	}
+	if len(r.ex.cfg.OwnPrefixes) > 0 && !strings.HasPrefix(assertID, "ENGINE.") {
+		own := false
+		for _, p := range r.ex.cfg.OwnPrefixes {
+			if strings.HasPrefix(assertID, p) {
+				own = true
+			}
+		}
+		if !own {
+			return "foreign"
+		}
 	}
 	// a failure is excused iff a carve-out active on this path belongs to an
 	// open known finding for exactly this assertion id
